@@ -59,11 +59,13 @@ def main() -> int:
     selftest = "--selftest" in sys.argv
     replay = sys.argv[sys.argv.index("--replay") + 1] if "--replay" in sys.argv else None
     ALL = ["addPicture", "insertPicture", "addMovie", "addOle", "save", "reopen"]
+    from mbt.drive import media as _M
+    NGEN = len(_M._SPECS)          # every generated image of the universe (the two library-supplied ones follow them)
     if thorough:
-        cfgs = [("a", 3, 4, ALL, None), ("b", 2, 11, ["addPicture", "reopen"], None), ("sim", 8, 11, ALL, "num=1500")]
+        cfgs = [("a", 3, 4, ALL, None), ("b", 2, NGEN, ["addPicture", "reopen"], None), ("sim", 8, NGEN, ALL, "num=1500")]
     else:
-        cfgs = [("a", 2, 3, ALL, None), ("b", 1, 11, ["addPicture", "insertPicture"], None), ("c", 3, 2, ["addPicture", "reopen", "addOle", "addMovie"], None),
-                ("sim", 7, 11, ALL, "num=150")]
+        cfgs = [("a", 2, 3, ALL, None), ("b", 1, NGEN, ["addPicture", "insertPicture"], None), ("c", 3, 2, ["addPicture", "reopen", "addOle", "addMovie"], None),
+                ("sim", 7, NGEN, ALL, "num=150")]
     jobs, per = [], {}
     states = trans = 0
     if replay:
